@@ -10,7 +10,8 @@ CHECKS = {
   'C10': dict(
     engine='timer', category='model_checking', design_ref='DESIGN.md 5/C10',
     technique='TLC exhaustive check of code-shaped TimerQueue.tla against TimerAbs clauses; TLC-simulated behaviours '
-              'single-stepped on the real TimerQueue (projection compare); real-code traces validated by TLC against TimerAbsTrace',
+              'single-stepped on the real TimerQueue (projection compare); real-code traces (random, bulk, pattern, low-resolution clock, '
+              'same-iteration coincidences) validated by TLC against TimerAbsTrace',
     text='TLC enumerates every interleaving of Schedule/Cancel calls, worker quanta, Event notifier vs timer expiry and clock '
          'advances for 2-3 timers on a half-tick grid (exhaustive in bounds); the model is bound to the code by replaying TLC '
          'behaviours on the real TimerQueue under a virtual-time gevent loop with state comparison after every quantum, and '
@@ -21,9 +22,10 @@ CHECKS = {
 
 _STACK_TECH = ('TLC exhaustive check of code-shaped CallStack.tla (per-call sink stack, timeout sink, open chaining, pool '
                'queue, serial/mux transports) + real Thrift/ThriftMux clients built by the public builders run over a simulated '
-               'network under a virtual-time gevent loop; recorded traces validated by TLC against CallAbsTrace')
+               'network under a virtual-time gevent loop (optionally with libev\'s event discipline); recorded traces validated by TLC against CallAbsTrace')
 _STACK_NOTE = ('Trusted: SimNet as TCP stand-in, peers with their own codecs, virtual loop faithful to gevent; TLC bounds '
-               '(3 calls, 3-4 ticks, pool of 1, queue of 1); requests attributed to calls by a unique argument.')
+               '(3 calls, 3-4 ticks, pool of 1, queue of 1); requests attributed to calls by a unique argument; tag counters near field boundaries are '
+               'reached by fast-forwarding the pool\'s counter (common.age_tag_pools), not by executing 2^16..2^24 calls.')
 CHECKS['C01'] = dict(engine='stack', category='model_checking', design_ref='DESIGN.md 5/C01', technique=_STACK_TECH, note=_STACK_NOTE,
   text='TLC enumerates every order of issue (before/after open), reply, late reply, I/O fault, timer expiry and pool hand-over '
        'for 3 calls on the code-shaped model and checks exactly-once / not-early / on-time / completes; the same clauses are '
@@ -51,29 +53,36 @@ CHECKS['C08'] = _mc('transport', 'DESIGN.md 5/C08',
   'probes are skipped while an environment fault is unobserved or a connect is pending.')
 CHECKS['C11'] = _mc('transport', 'DESIGN.md 5/C11',
   'TLC exhaustive check of MuxTransport.tla (TagPool, tag map, send queue, timeouts, adversarial peer frames, max_tag scaled down); real ThriftMux '
-  'transport against an adversarial simulated peer; wire-level traces validated by TLC against TransportAbsTrace',
+  'transport against an adversarial simulated peer (duplicates, unknown / reserved / single-bit-off tags, aged tag counters); wire-level traces '
+  'validated by TLC against TransportAbsTrace',
   'Tag range / uniqueness / recycling are judged from frames decoded at the simulated peer only; TLC explores every interleaving of requests, '
   'replies in any order, duplicates, unknown and reserved tags, timeouts before/after transmission on the model (tag space scaled to 5-6) and '
   'validates thousands of recorded real-code histories incl. long request/reply runs for boundedness.',
-  'Trusted: peer codec; a stray frame naming a tag that the client allocates before processing the frame is indistinguishable from an answer '
-  '(allowance `stray` in TransportAbs, taint in the model); bound has slack for requests dropped before send.')
+  'Trusted: peer codec; a stray frame naming a tag that the client allocates AND writes before processing the frame is indistinguishable from an '
+  'answer (allowance `stray` in TransportAbs, taint in the model) - a frame naming the tag of a request still in the send queue is not excused '
+  '(Tagged event); bound has slack for requests dropped before send.')
 CHECKS['C09'] = _mc('resurrect', 'DESIGN.md 5/C09',
   'TLC check of code-shaped Resurrector.tla (retry loop, deferred fault signal, Close at any point); real ResurrectorSink over real pool/transports '
-  'and full clients over a simulated endpoint with scripted reachability over minutes of virtual time; traces validated by TLC against ResurrectAbsTrace',
+  'and full clients over simulated endpoints (one, or 2-4 behind the real aperture / heap balancer) with scripted reachability over minutes of '
+  'virtual time; traces validated by TLC against ResurrectAbsTrace; every transition of the bounded Resurrector / Observable graphs replayed on the real objects',
   'Fail-fast while the connection is known down, back-off gaps (>= initial, non-decreasing, growing below the cap, <= max), recovery within '
   'max_wait_interval + slack once reachable under steady traffic, and no attempt after close are evaluated by TLC on every recorded run; the '
   'model explores every placement of reachability flips, fault notifications and Close relative to the retry timer.',
-  'Trusted: unreachable = refused connects / unanswered pings + reset of established connections; down is ground truth (client observed a failed '
+  'Trusted: unreachable = refused connects (at once / late) / unanswered pings + reset of established connections, or blackhole (established '
+  'connections silent, new ones refused); multi-endpoint traces are projected on one endpoint under bursts of n+1 concurrent calls; down is ground truth (client observed a failed '
   'attempt) made firm at the next quiescent point; slack 9.5 s covers a ThriftMux attempt whose ping was lost.')
 CHECKS['C13'] = _mc('muxwire', 'DESIGN.md 5/C13',
   'TLA+ reference encoder + independent decoder (MuxWire.tla); TLC checks decode(encode)=id on a bounded domain and validates recorded (input, bytes) '
-  'pairs from the real serializer / header writer / header reader',
+  'pairs from the real serializer / header writer / header reader; stream mode: MuxStreamAbs frames the byte stream a live connection delivered '
+  'under partial writes and matches every frame to a supplied message; MuxSendLoop.tla model-checks the single-writer discipline',
   'Input-universal property of pure functions: TLC decides each recorded frame against the reference codec (every tag class, non-ASCII contexts, '
-  'deadlines, payloads) and checks the codec laws exhaustively over a bounded domain; not exhaustive over inputs.',
+  'deadlines, payloads) and checks the codec laws exhaustively over a bounded domain; the real ThriftMux transport stack is run with send-buffer '
+  'back-pressure, pings, deadlines, bodies up to 66 kB and a bare-socket variant, and TLC judges the delivered stream; not exhaustive over inputs.',
   'Trusted: MuxWire.tla written from the mux protocol description; generators cover tag byte boundaries and 1-4 byte code points.', 'exploration')
 CHECKS['C15'] = _mc('kafkawire', 'DESIGN.md 5/C15',
   'TLA+ reference Kafka v0 codec incl. CRC32 on 16-bit limbs (KafkaWire.tla); TLC checks round trips on a bounded domain and validates recorded '
-  'request bytes / decoded responses / correlation-id routing from the real code',
+  'request bytes / decoded responses / correlation-id routing from the real code; late-reply mode (KafkaCorrAbs: a reply reaches the request '
+  'instance it answers; KafkaCorr.tla) and stream mode (KafkaStreamAbs frames what the broker received under partial writes)',
   'Each recorded produce request is accepted iff sizes, CRC32, header fields equal the reference encoding; responses encoded by an independent broker '
   'encoder must decode to what the spec decoder yields; replies must reach the request with the same correlation id.',
   'Trusted: KafkaWire.tla written from the protocol guide; not exhaustive over inputs.', 'exploration')
@@ -85,7 +94,8 @@ CHECKS['C14'] = _mc('thriftwire', 'DESIGN.md 5/C14',
   'Trusted: hand-written gen_py-style test interfaces; Thrift library as stated oracle; codec part is sampled, not exhaustive.')
 CHECKS['C20'] = _mc('proxy', 'DESIGN.md 5/C20',
   'TLA+ reference functions (UriProxy.tla: user methods, proxy names, forwarding record, tcp/zk URI parsing) checked for self-consistency by TLC and '
-  'used by TLC to validate recorded (interface, call, URI) -> (dispatch record, endpoints) pairs from the real code',
+  'used by TLC to validate recorded (interface, call, URI) -> (dispatch record, endpoints) pairs from the real code; end-to-end mode over the real '
+  'MessageDispatcher (ProxyCalls clauses; ProxyDispatch.tla models the pre-open path)',
   'Generated interface classes (underscore decorations, inheritance, aliases, varied signatures) are called through real proxies over a recording '
   'dispatcher and URIs are parsed by the real parser; TLC compares every record with the reference functions.',
   'Trusted: conservative reading of "public method" (no leading underscore, not ending in __); inputs sampled.', 'exploration')
